@@ -65,7 +65,7 @@ CLAIMED = {
          "Trusts: the iteration-kind recogniser (sa/sites.py).",
          "DESIGN.md section 3, C16"),
  "C13": ("writer/reader key-set agreement by literal extraction, def-use check that the caller's default reaches every squeeze test and constructor, entropy-source audit with seed-dominates-draw on the CFG",
-         "THIN: round-trip equality is NOT decided. Decided are three necessary structural preconditions: YAML/dict writer and reader key sets agree (root written as [root], read with [0]); zero-squeezing compares with the caller's default at every level and forwards it to every Fiber/Tensor built; random construction draws only from the seeded random stream, seeding precedes every draw, recursion does not re-seed; _makeFiber returns a fiber only for a provably non-empty coordinate list (no explicit empty sub-fibers from all-default blocks).",
+         "THIN: round-trip equality is NOT decided. Decided are three necessary structural preconditions: YAML/dict writer and reader key sets agree (root written as [root], read with [0]); zero-squeezing compares with the caller's default at every level and forwards it to every Fiber/Tensor built; random construction draws only from the seeded random stream, seeding precedes every draw, recursion does not re-seed; _makeFiber returns a fiber only for a provably non-empty coordinate list (no explicit empty sub-fibers from all-default blocks); a YAML reader gives up only for an absent key or a value of the wrong kind (isinstance(<value>, <type>)), never on the truth value of what it read; uncompress / _fillempty hand their own parameters to the next level in the callee's parameter positions.",
          "Trusts: yaml dump/load round-trips plain dict/list/scalars.",
          "DESIGN.md section 3, C13"),
  "C17": ("resource pairing on the CFG (temp files removed / readers closed on every path), callback-slot arity agreement between two policies and the call sites, stale-loop-variable rule via reaching definitions, two-finger recogniser on the trace combiners",
@@ -73,7 +73,7 @@ CLAIMED = {
          "Trusts: nothing about the numbers.",
          "DESIGN.md section 3, C17"),
  "C18": ("literal extraction of the spec default table, polynomial (sum-of-products) normal form of the footprint expressions, aggregation-shape checks, effect summaries",
-         "Structural clauses: default table (0 bits / 'C' / 'contiguous'); fiber footprint normalises to fhbits + pbits*n + cbits*n with n = occupancy for C and shape for U; rank = rhbits + sum over the raw rank list, tensor = root + sum over rank ids, root = hbits + pbits; sub-tree work-list adds each popped fiber once and walks children with iterShape for U / iterOccupancy otherwise; the queries are effect-free. Numeric totals are NOT decided (they follow from C02 + these formulas).",
+         "Structural clauses: default table (0 bits / 'C' / 'contiguous'); fiber footprint normalises to fhbits + pbits*n + cbits*n with n = occupancy for C and shape for U; rank = rhbits + sum over the raw rank list, tensor = root + sum over rank ids, root = hbits + pbits; sub-tree work-list adds each popped fiber once and walks children with iterShape for U / iterOccupancy otherwise, sums from 0 exactly while the work list is not empty; getElem gives cbits / pbits / both for coord / payload / elem; the queries are effect-free. Numeric totals are NOT decided (they follow from C02 + these formulas).",
          "Trusts: C02 (the rank lists mirror the tree).",
          "DESIGN.md section 3, C18"),
  "C19": ("mirror-symmetry comparison of branch summaries under the renaming 0<->1, counting-site placement, use-only-as-receiver check on payload variables, polynomial normal form of the latency formula",
@@ -81,7 +81,7 @@ CLAIMED = {
          "Trusts: nothing about the numbers.",
          "DESIGN.md section 3, C19"),
  "C20": ("sibling cross-check of the encodeFiber implementations registered for U/C/B, registry/interface exhaustiveness against the base class placeholders, shared key constructor",
-         "THIN: decode round trips and lookups are NOT decided. Decided: encodeFiber of C and B returns a per-element counter (the occupancy the rank above accumulates into segment ends); getSize of U/C/B sums exactly the word counts of the layout (ceiling-division idiom for mask words); every encodeFiber of U, C, B (and Codec.encode) forwards the imposed shape to the next rank; the registry maps U, C, B to classes overriding the placeholder methods the slice API calls; producers and the output dictionary share Codec.get_keys; every attribute a codec / format method reads through self has a writer that can have run before (constructor chain actually called, another method, or a store through another name).",
+         "THIN: decode round trips and lookups are NOT decided. Decided: encodeFiber of C and B returns a per-element counter (the occupancy the rank above accumulates into segment ends); getSize of U/C/B sums exactly the word counts of the layout (ceiling-division idiom for mask words); every encodeFiber of U, C, B (and Codec.encode) forwards the imposed shape to the next rank; the registry maps U, C, B to classes overriding the placeholder methods the slice API calls; producers and the output dictionary share Codec.get_keys; every attribute a codec / format method reads through self has a writer that can have run before (constructor chain actually called, another method, or a store through another name); the three encodeFiber siblings share one skeleton (child handed to codec.encode one level down, running sum of the children's occupancies from 0, added only under isinstance(<sum>, int), stored as the segment end, next_fmt remembered) and every test of the level in them separates the leaf rank from the ranks above it and nothing else; per-rank tables are read at depth / depth+1 only and Codec.encode keeps rank depth in slot depth+1 (root: slot 0, fmts[0], one payload entry); Bitvector's scan API agrees with the base class it overrides (setupSlice chains with its own arguments, same slice-limit test, handle counted once, handle pair in constructor order) and with its encoder (the scan stops at the literal the encoder stores); the short paths of the lookups are the lower-bound answers (nothing stored / above the last -> None, not above the first -> 0; uncompressed: identity inside [0, shape)).",
          "Trusts: nothing about the encoded arrays.",
          "DESIGN.md section 3, C20"),
 }
